@@ -781,3 +781,33 @@ pub fn validate_variant(c: &Case, kind: u8, adapter: bool) -> Option<(String, Op
         },
     })
 }
+
+/// `prevalidate` + `get_string_to_sign` on an authenticator built directly (unstable API), for arbitrary
+/// credential strings and instants.
+pub fn preval(cred: &str, t: (i64, u32), now: (i64, u32), region: &str, service: &str) -> Option<String> {
+    let ts = mk_time(t.0, t.1)?;
+    let now = mk_time(now.0, now.1)?;
+    Some(guard(|| {
+        let mut b = SigV4Authenticator::builder();
+        b.canonical_request_sha256([0u8; 32]);
+        b.credential(cred.to_string());
+        b.signature("x".to_string());
+        b.request_timestamp(ts);
+        let a = b.build().expect("all fields set");
+        a.prevalidate(region, service, now, chrono::Duration::minutes(15))?;
+        Ok(hx(&a.get_string_to_sign()))
+    }))
+}
+
+pub fn is_unreserved(b: u8) -> bool {
+    canonical::is_rfc3986_unreserved(b)
+}
+pub fn upper_hex(b: u8) -> Vec<u8> {
+    canonical::u8_to_upper_hex(b).to_vec()
+}
+pub fn latin1(s: &[u8]) -> Vec<u8> {
+    canonical::latin1_to_string(s).into_bytes()
+}
+pub fn trim(s: &[u8]) -> Vec<u8> {
+    canonical::trim_ascii(s).to_vec()
+}
